@@ -1,6 +1,8 @@
 import Genq.Props.C08
 open Genq.Pipeline
+open Genq
 #print axioms C08_skeleton_tie
 #print axioms C08_perm_invariant
 #print axioms C08_expand_is_sorted_perm
 #print axioms C08_pinned_order_dependence_witness
+#print axioms C08_imports_tie
